@@ -759,6 +759,167 @@ def compare_cmif(ctx, m, strs):
                  case, key="C20:CMIF_plot:corr")
 
 
+
+# ----------------------------------------------------------------------------- diagrams are independent objects
+def _arr(t):
+    return np.array([[NAN if v is None else v for v in r] for r in t], float)
+
+
+def ax_labels(ax):
+    leg = ax.get_legend()
+    return (ax.get_title(), ax.get_xlabel(), ax.get_ylabel(), tuple(t.get_text() for t in leg.get_texts()) if leg is not None else None)
+
+
+def extract_diagram(fn, ax, hide):
+    """what a diagram shows now: marker families (stab / cluster) or curves (cmif)"""
+    if fn == "cmif":
+        return read_curves(ax)
+    arts, _ = read_axes(ax)
+    st, un = split_families(arts, hide)
+    return (fr_pts(st), fr_pts(un))
+
+
+def check_still_shows(ctx, site, k, n_later, fig, ax, fn, hide, want, shown0, labels0, case):
+    """diagram k, re-read after n_later further diagrams were drawn (none of them on axes passed by the caller)"""
+    fam = "curves" if fn == "cmif" else "markers"
+    if ax.figure is not fig or ax not in fig.axes:
+        now = extract_diagram(fn, ax, hide)
+        nexp = len(want[1]) if fn == "cmif" else len(want[0]) + len(want[1])
+        ngot = len(now) if fn == "cmif" else len(now[0]) + len(now[1])
+        ctx.fail("oracle", "%s: diagram %d after %d later diagram(s) were drawn: its axes are no longer part of its figure (figure re-used and cleared); expected %d %s, got %d"
+                 % (site, k, n_later, nexp, fam, ngot), case, key="C20:%s:overwritten-by-later-diagram" % site)
+        return None
+    now = extract_diagram(fn, ax, hide)
+    if fn == "cmif":
+        freq, want_db = want
+        ok = len(now) == len(want_db) and all(np.array_equal(x, freq) and curve_match(y, w) for (x, y), w in zip(now, want_db))
+        if not ok:
+            ctx.fail("oracle", "%s: diagram %d after %d later diagram(s) were drawn: expected %d curves at their levels, got %d" % (site, k, n_later, len(want_db), len(now)),
+                     case, key="C20:%s:overwritten-by-later-diagram" % site)
+        return now
+    ws, wu = fr_pts(want[0]), fr_pts(want[1])
+    if now[0] != ws or now[1] != wu:
+        ctx.fail("oracle", "%s: diagram %d after %d later diagram(s) were drawn: expected %d stable + %d unstable %s, got %d + %d (%s..)"
+                 % (site, k, n_later, len(ws), len(wu), fam, len(now[0]), len(now[1]), show_pts(now[0], 3)), case, key="C20:%s:overwritten-by-later-diagram" % site)
+    elif shown0 is not None and now != shown0:
+        ctx.fail("oracle", "%s: diagram %d changed after later diagrams were drawn" % (site, k), case, key="C20:%s:overwritten-by-later-diagram" % site)
+    if labels0 is not None and ax_labels(ax) != labels0:
+        ctx.fail("oracle", "%s: title / axis labels / legend of diagram %d changed after later diagrams were drawn: %s -> %s" % (site, k, labels0, ax_labels(ax)), case,
+                 key="C20:%s:labels-changed-by-later-diagram" % site)
+    return now
+
+
+def check_distinct(ctx, drawn, case):
+    """neither fig nor ax was passed in: every call must hand back its own figure and axes"""
+    for a in range(len(drawn)):
+        for b in range(a + 1, len(drawn)):
+            if drawn[a]["fig"] is drawn[b]["fig"] or drawn[a]["ax"] is drawn[b]["ax"]:
+                ctx.fail("oracle", "diagrams %d (%s) and %d (%s), both drawn without fig/ax, share the same %s object" % (
+                    a, drawn[a]["site"], b, drawn[b]["site"], "figure" if drawn[a]["fig"] is drawn[b]["fig"] else "axes"), case,
+                    key="C20:%s:shared-figure" % drawn[b]["site"])
+                return
+
+
+def sequence_case(ctx, case, exprs, meta, big):
+    """draw several diagrams one after the other (no fig/ax passed), keep every (fig, ax), then re-read ALL of them"""
+    items = case["items"]
+    ctx.count(case, nontrivial=len(items) >= 2)
+    ctx.hist("sequence_length", len(items))
+    ctx.sample(dict(kind="sequence", fns=[it["fn"] for it in items]), limit=6)
+    drawn = []
+    try:
+        for k, it in enumerate(items):
+            src = items[it["same_as"]] if it.get("same_as") is not None else it   # A': the table of an earlier item, other options
+            fn, hide = it["fn"], bool(it.get("hide", True))
+            freqlim = None if it.get("freqlim") is None else tuple(it["freqlim"])
+            d = dict(fn=fn, hide=hide, site=dict(stab="stab_plot", cluster="cluster_plot", cmif="CMIF_plot")[fn])
+            ctx.hist("sequence_item", fn)
+            if fn == "cmif":
+                S, freq = np.array(src["S"], float), np.array(src["freq"], float)
+                d["fig"], d["ax"] = plot.CMIF_plot(S.copy(), freq.copy(), freqlim=freqlim, nSv=it.get("nSv", "all"))
+                d["want"] = (freq, oracle_cmif(S, it.get("nSv", "all")))
+            else:
+                Fn, Xi, Lab = _arr(src["Fn"]), _arr(src["Xi"]), np.array(src["Lab"])
+                step = int(it.get("step", 1))
+                d.update(Fn=Fn, Xi=Xi, Lab=Lab, step=step)
+                if fn == "stab":
+                    cols = Fn.shape[1]
+                    d["fig"], d["ax"] = plot.stab_plot(Fn.copy(), Lab.copy(), step, (cols - 1) * step if cols > 1 else step, ordmin=0, freqlim=freqlim, hide_poles=hide)
+                    d["want"] = oracle_stab(Fn, Lab, step, hide)
+                else:
+                    d["fig"], d["ax"] = plot.cluster_plot(Fn.copy(), Xi.copy(), Lab.copy(), ordmin=0, freqlim=freqlim, hide_poles=hide)
+                    d["want"] = oracle_cluster(Fn, Xi, Lab, hide)
+            d["shown0"] = extract_diagram(fn, d["ax"], hide) if fn != "cmif" else None
+            d["labels0"] = ax_labels(d["ax"])
+            drawn.append(d)
+        check_distinct(ctx, drawn, case)
+        for k, d in enumerate(drawn):
+            sub = dict(case, reread_item=k)
+            now = check_still_shows(ctx, d["site"], k, len(drawn) - 1 - k, d["fig"], d["ax"], d["fn"], d["hide"], d["want"], d["shown0"], d["labels0"], sub)
+            if now is not None and d["fn"] in ("stab", "cluster"):   # the model's expectation for diagram k, again
+                res = {d["fn"]: now}
+                queue_tables(d["Fn"], d["Xi"], d["Lab"], "stab_markers Fn Lab (%d) %s" % (d["step"], "true" if d["hide"] else "false"), d["hide"], [],
+                             ("tables", dict(sub, site="sequence"), res, [], (d["Fn"], d["Xi"])), exprs, meta, big)
+    except Exception as e:  # noqa: BLE001
+        ctx.fail("oracle", "a diagram of a sequence raised %s: %s" % (type(e).__name__, str(e)[:200]), case, key="C20:sequence:raised")
+    finally:
+        plt.close("all")
+
+
+def class_sequence_case(ctx, case):
+    """the classes' plot methods one after the other on several algorithms of one setup; every returned diagram is re-read at the end"""
+    from pyoma2.algorithms import FDD, SSIcov, SSIdat, pLSCF
+    from pyoma2.setup import SingleSetup
+
+    rng = np.random.default_rng(int(case["seed"]))
+    fs = float(case.get("fs", 50.0))
+    data = make_signal(rng, int(case.get("N", 1500)), fs, int(case.get("nch", 3)))
+    ctx.count(case, nontrivial=True)
+    ss = SingleSetup(data.copy(), fs=fs)
+    algs = {}
+    for name, (cls_name, p) in case["algs"].items():
+        algs[name] = (cls_name, dict(SSIcov=SSIcov, SSIdat=SSIdat, pLSCF=pLSCF, FDD=FDD)[cls_name](name=name, **p))
+        ss.add_algorithms(algs[name][1])
+    try:
+        for name in algs:
+            ss.run_by_name(name)
+    except Exception as e:  # noqa: BLE001
+        ctx.fail("correspondence", "class sequence: run raised %s: %s (harness configuration?)" % (type(e).__name__, str(e)[:200]), case, key="C20:class-sequence:run")
+        return
+    drawn = []
+    try:
+        for k, (name, what, hide) in enumerate(case["calls"]):
+            cls_name, alg = algs[name]
+            r = alg.result
+            d = dict(hide=bool(hide), site="%s.plot_%s" % (cls_name, what))
+            ctx.hist("class_sequence_item", d["site"])
+            if what == "CMIF":
+                d["fn"] = "cmif"
+                d["fig"], d["ax"] = alg.plot_CMIF(nSv="all")
+                d["want"] = (np.array(r.freq, float), oracle_cmif(np.array(r.S_val, float), "all"))
+            else:
+                Fn, Xi, Lab = np.array(r.Fn_poles, float), np.array(r.Xi_poles, float), np.array(r.Lab)
+                step = int(alg.run_params.step) if cls_name.startswith("SSI") else 1
+                if what == "stab":
+                    d["fn"] = "stab"
+                    d["fig"], d["ax"] = alg.plot_stab(hide_poles=bool(hide))
+                    d["want"] = oracle_stab(Fn, Lab, step, bool(hide))
+                else:
+                    d["fn"] = "cluster"
+                    d["fig"], d["ax"] = alg.plot_cluster(hide_poles=bool(hide))
+                    d["want"] = oracle_cluster(Fn, Xi, Lab, bool(hide))
+            d["shown0"] = extract_diagram(d["fn"], d["ax"], d["hide"]) if d["fn"] != "cmif" else None
+            d["labels0"] = ax_labels(d["ax"])
+            drawn.append(d)
+        check_distinct(ctx, drawn, case)
+        for k, d in enumerate(drawn):
+            check_still_shows(ctx, d["site"], k, len(drawn) - 1 - k, d["fig"], d["ax"], d["fn"], d["hide"], d["want"], d["shown0"], d["labels0"], dict(case, reread_item=k))
+    except Exception as e:  # noqa: BLE001
+        ctx.fail("oracle", "a plot method of a class sequence raised %s: %s" % (type(e).__name__, str(e)[:200]), case, key="C20:class-sequence:raised")
+    finally:
+        plt.close("all")
+
+
 # ----------------------------------------------------------------------------- class level
 def class_case(ctx, case, exprs, meta, big):
     from pyoma2.algorithms import FDD, SSIcov, SSIdat, pLSCF
@@ -921,6 +1082,10 @@ def run(ctx):
             table_case(ctx, case, exprs, meta, big)
         elif case["type"] == "cmif":
             cmif_case(ctx, case, exprs, meta)
+        elif case["type"] == "sequence":
+            sequence_case(ctx, case, exprs, meta, big)
+        elif case["type"] == "class_sequence":
+            class_sequence_case(ctx, case)
     # ---- function level: tables
     n_tab = ctx.n(100, 450)
     for k in range(n_tab):
@@ -963,6 +1128,34 @@ def run(ctx):
         case = dict(type="cmif", S=S.tolist(), freq=freq.tolist(), nSv=nSv, freqlim=gen_freqlim(rng, 0.0, float(freq[-1])),
                     axes_mode=str(rng.choice(["none", "none", "bystander", "panel", "otherfig"])))
         cmif_case(ctx, case, exprs, meta)
+    # ---- diagrams are independent objects: sequences A, B, A', ... with every returned (fig, ax) kept and re-read at the end
+    for k in range(ctx.n(12, 60)):
+        base = []
+        for _ in range(2):
+            kind, Fn, Xi, Lab = gen_tables(ctx, rng, 8, degenerate=False)
+            base.append(dict(Fn=jl(Fn), Xi=jl(Xi), Lab=Lab.tolist()))
+        n = int(rng.integers(2, 5))
+        Sq = (rng.integers(1, 4096, size=(n, n, 6)) / 64.0).tolist()
+        fq = (np.cumsum(rng.integers(1, 9, size=6)) / 16.0).tolist()
+        first = str(rng.choice(["cluster", "cluster", "stab"]))
+        items = [dict(base[0], fn=first, hide=bool(rng.random() < 0.5), step=int(rng.choice([1, 2])), freqlim=gen_freqlim(rng))]
+        for j in range(int(rng.integers(2, 5))):
+            fn = str(rng.choice(["cluster", "cluster", "stab", "stab", "cmif"]))
+            if fn == "cmif":
+                items.append(dict(fn="cmif", S=Sq, freq=fq, nSv=("all" if rng.random() < 0.5 else int(rng.integers(1, n)))))
+            elif rng.random() < 0.4:   # A': an earlier table drawn again with other options
+                items.append(dict(fn=fn, same_as=0, hide=bool(rng.random() < 0.5), step=int(rng.choice([1, 3])), freqlim=gen_freqlim(rng)))
+            else:
+                items.append(dict(base[1], fn=fn, hide=bool(rng.random() < 0.5), step=int(rng.choice([1, 2])), freqlim=gen_freqlim(rng)))
+        items.append(dict(base[1] if rng.random() < 0.5 else base[0], fn=first, hide=bool(rng.random() < 0.5), step=1, freqlim=None))   # the first kind once more
+        sequence_case(ctx, dict(type="sequence", items=items), exprs, meta, big)
+    loose = dict(sc=dict(err_fn=0.05, err_xi=0.8, err_phi=0.3), hc=dict(conj=True, xi_max=0.2, mpc_lim=0.5, mpd_lim=0.5))
+    for k in range(ctx.n(2, 6)):
+        a2 = ("SSIdat", dict(br=6, ordmax=8)) if k % 2 else ("pLSCF", dict(ordmax=7, nxseg=256, **loose))
+        class_sequence_case(ctx, dict(type="class_sequence", seed=int(rng.integers(1, 10**6)), nch=3,
+                                      algs=dict(a=("SSIcov", dict(br=7, ordmax=9)), b=a2, c=("FDD", dict(nxseg=64))),
+                                      calls=[["a", "cluster", True], ["a", "stab", False], ["b", "cluster", False], ["c", "CMIF", True],
+                                             ["b", "stab", True], ["a", "cluster", False], ["b", "cluster", True]]))
     # ---- class level
     configs = []
     for d in range(ctx.n(2, 8)):
